@@ -410,7 +410,7 @@ func check(prop, tier string) int {
 	var extra []scenario.Violation // violations found by the parent (death / hang / race report)
 	deaths := 0
 	partB := map[string]interface{}{}
-	supervise := func(self string, dir string) {
+	supervise := func(self string, dir string, W int) {
 	var procs []*procState
 	for w := 0; w < W; w++ {
 		procs = append(procs, spawn(self, prop, tier, seed, w, W, 0, dir, false))
@@ -480,7 +480,7 @@ func check(prop, tier string) int {
 		}
 	}
 	}
-	supervise(self, dir)
+	supervise(self, dir, W)
 	expected := s.Indices(tier)
 	if prop == "C18" && os.Getenv("IONSIM_C18_PARTS") != "A" {
 		// part B: the same seeded task sets, free-running, in the -race build
@@ -494,7 +494,8 @@ func check(prop, tier string) int {
 			bdir := filepath.Join(dir, "free")
 			os.MkdirAll(bdir, 0755)
 			tB := time.Now()
-			supervise(raceBin, bdir)
+			// three times as many (shorter-lived) processes: package-level state of ion-go is cold again in each
+			supervise(raceBin, bdir, 3*W)
 			spawnEnv = nil
 			freeIdx := s.Indices(tier)
 			os.Unsetenv("IONSIM_C18_MODE")
